@@ -362,6 +362,19 @@ def Cmd.importable (inp : TkIn) (c : Cmd) : Bool :=
 
 def TkIn.importable (inp : TkIn) : Bool := inp.cmds.all (Cmd.importable inp)
 
+/-- The same with the plain condition on a `Measure`: an existing qubit into an existing bit. -/
+def Cmd.wellFormed (inp : TkIn) (c : Cmd) : Bool :=
+  if c.op = "Measure" then
+    match c.qs, c.bs with
+    | [q], [b] => decide (q < inp.nq) && decide (b < inp.nb)
+    | _, _ => false
+  else Cmd.importable inp c
+
+/-- A tket circuit over the supported ops whose post-selection is a dict (distinct keys) of bits
+    of the circuit. -/
+def TkIn.wellFormed (inp : TkIn) : Bool :=
+  inp.cmds.all (Cmd.wellFormed inp) && decide (inp.ps.map (·.1)).Nodup && inp.ps.all (·.1 < inp.nb)
+
 /-- No command touches a qubit after it was measured into a post-selected bit: only then is
     "post selection happens at the end" (tk.py:322) harmless (finding F33). -/
 def psFinalFrom (ps : PS) : List Nat → List Cmd → Bool
